@@ -1,19 +1,19 @@
 /-
-  I3.Props.C14 (source pin) — the Go functions mirrored by the hand-written models of C14 still have the
+  I3.Props.C16 (source pin) — the Go functions mirrored by the hand-written models of C16 still have the
   source text against which those models were validated, and no function was added to or removed
   from their packages.  Regenerated fingerprints: I3.Gen.fingerprints (tools/gen_pins).
 -/
 import I3.Gen.Fingerprints
 import I3.Model.SourcePin
-namespace I3.Props.C14
+namespace I3.Props.C16
 open I3.SourcePin
 
 def modelled : List String := [
-  "babyjub.PublicKey.VerifyMimc7",
-  "babyjub.PublicKey.VerifyPoseidon",
   "tree.<layout>@babyjub",
   "tree.<layout>@constants",
   "tree.<layout>@ff",
+  "tree.<layout>@ffg",
+  "tree.<layout>@goldenposeidon",
   "tree.<layout>@keccak256",
   "tree.<layout>@mimc7",
   "tree.<layout>@poseidon",
@@ -33,6 +33,15 @@ def modelled : List String := [
   "ff.<decls>@element.go",
   "ff.<decls>@element_ops_amd64.go",
   "ff.<decls>@element_ops_noasm.go",
+  "ffg.<decls>@arith.go",
+  "ffg.<decls>@asm.go",
+  "ffg.<decls>@asm_noadx.go",
+  "ffg.<decls>@doc.go",
+  "ffg.<decls>@element.go",
+  "ffg.<decls>@element_ops_amd64.go",
+  "ffg.<decls>@element_ops_noasm.go",
+  "goldenposeidon.<decls>@constants.go",
+  "goldenposeidon.<decls>@poseidon.go",
   "keccak256.<decls>@keccac256.go",
   "mimc7.<decls>@mimc7.go",
   "poseidon.<decls>@constants.go",
@@ -42,9 +51,9 @@ def modelled : List String := [
 
 theorem source_pinned : modelled.all (same I3.Gen.fingerprints) = true := by decide +kernel
 
-theorem function_set_pinned : (["babyjub.", "constants.", "ff.", "keccak256.", "mimc7.", "poseidon.", "utils."] : List String).all (sameKeys I3.Gen.fingerprints) = true := by
+theorem function_set_pinned : (["babyjub.", "constants.", "ff.", "ffg.", "goldenposeidon.", "keccak256.", "mimc7.", "poseidon.", "utils."] : List String).all (sameKeys I3.Gen.fingerprints) = true := by
   decide +kernel
 
-theorem modelled_nonempty : 29 = modelled.length := by decide
+theorem modelled_nonempty : 38 = modelled.length := by decide
 
-end I3.Props.C14
+end I3.Props.C16
